@@ -297,7 +297,7 @@ type realRun struct {
 }
 
 func runReal(src string, spawn bool, hostArgs []int64) (rr realRun) {
-	ctx, cancel := context.WithTimeout(context.Background(), 20*time.Second)
+	ctx, cancel := context.WithTimeout(context.Background(), realDeadline)
 	defer cancel()
 	defer func() {
 		if r := recover(); r != nil {
@@ -504,6 +504,9 @@ type out struct {
 
 var hostArgs = []int64{9, 4, 6}
 
+// realDeadline is the watchdog of one real evaluation (see the repeat rule in worker).
+var realDeadline = 20 * time.Second
+
 func worker(kind string, data json.RawMessage) any {
 	var c caseData
 	if err := json.Unmarshal(data, &c); err != nil {
@@ -527,6 +530,13 @@ func worker(kind string, data json.RawMessage) any {
 		}
 		src := gen.RenderProgram(p)
 		rr := runReal(src, c.Spawn, hostArgs)
+		if rr.Err == "timeout" {
+			// the scenarios are small and the model has bounded them: on a loaded machine the watchdog can
+			// fire without any fault, so only a repeat with a five times longer deadline counts
+			realDeadline = 100 * time.Second
+			rr = runReal(src, c.Spawn, hostArgs)
+			realDeadline = 20 * time.Second
+		}
 		for k, v := range g.routes {
 			o.Routes[k] += v
 		}
